@@ -2,11 +2,33 @@
 
 Engine E3 (net), shared HTTP harness.  A real twisted.web.static.File (a real
 scratch file whose every byte is a function of its offset) is served by a real
-server.Site / HTTPChannel on a SimTransport.  1-3 pipelined GET/HEAD requests
-(HTTP/1.1, the last possibly HTTP/1.0 or Connection: close) carry Range headers
-from a grammar (single, multiple, suffix, open-ended, clamped, overlapping,
-unordered, unsatisfiable, reversed, malformed, other units, empty elements,
-optional whitespace, lenient-integer forms).
+server.Site / HTTPChannel on a SimTransport.  1-3 connections, one after the
+other, each with 1-3 pipelined GET/HEAD requests (HTTP/1.1, the last possibly
+HTTP/1.0 or Connection: close) carry Range headers from a grammar (single,
+multiple, suffix, open-ended, clamped, overlapping, unordered, unsatisfiable,
+reversed, malformed, other units, empty elements, optional whitespace,
+lenient-integer forms); a later request may repeat an earlier Range value.
+
+The file is not the same for ever: in a share of the runs it is rewritten
+BETWEEN two requests (grown, shrunk, emptied, same size with other bytes; in
+place or by rename) - between two pipelined requests of one connection (a hook
+in Site.getResourceFor: the previous response has been finished, the next
+request has not been looked at) and between connections - and range positions
+are then drawn around every size the file has in the run.  Every response is
+judged against the file as it was when its request was rendered.  The File
+object is one for the whole run (putChild) or a fresh one per request (the
+served directory's getChild -> createSimilarFile), the Site one per run or one
+per connection: nothing remembered per path, per File object or per class may
+outlive the file it was computed from.
+
+A second family (a fifth of the runs) leaves the HTTP channel out: File.render()
+writes into a minimal IRequest-like consumer (PullConsumer) that pulls the
+producer itself - from its driver between writes, inside registerProducer(), or
+from INSIDE request.write() up to a tape-chosen nesting depth (the channel wraps
+pull producers in _PullToPush, which never re-enters; the StaticProducers
+themselves say "be prepared for a re-entrant call"), possibly with two responses
+for the same path in production at once, possibly stopping the producer between
+two pulls.
 
 What the simulator owns: the three StaticProducers are PULL producers that emit
 at most `bufferSize` bytes per resumeProducing() and carry a cursor (and, for
@@ -27,11 +49,17 @@ a producer that spins; every file opened for a response is closed by the end;
 nothing is written after connectionLost.  Where RFC 9110 and the statement leave
 room (coalescing / order of parts, HEAD, empty representation, empty range set,
 lenient-integer forms, >2 overlapping ranges) the model says so and no verdict
-is given.
+is given.  Direct family: the same verdict on status, header fields and the
+concatenation of the writes in the order they were made; finish() exactly once
+and with no producer left registered, nothing written after finish(), no
+exception out of render() / resumeProducing() / stopProducing(), a producer
+that is pulled 60 times without writing or finishing never finishes; a stopped
+response is a prefix of what was due and its file is closed.
 """
 import os
 import shutil
 import tempfile
+import traceback
 
 from twisted.internet import _producer_helpers, task
 from twisted.logger import globalLogPublisher
@@ -39,6 +67,7 @@ from twisted.web import resource, server, static
 
 from detsim import net
 from detsim.fs import scratch_root
+from detsim.sim import StepLimit, Violation
 from models import http1
 from models import ranges as R
 from props import _http_harness as H
@@ -47,9 +76,11 @@ ID = "C25"
 ENGINE = "net"
 LEVEL = "exploration"
 TECHNIQUE = ("deterministic simulation: seeded Range-header grammar x per-run producer bufferSize x tape-chosen pulls, client reads, back-pressure "
-             "and connection loss on a pipelined connection; wire checked against an independent RFC 9110 range evaluator")
-QUICK_RUNS = 32000
-TWIN_P = 0.08   # this share of the runs drives two independent instances of the scenario one after the other (detsim.runner._run_scenario)
+             "and connection loss on pipelined connections x file rewritten between requests x re-entrantly pulling consumer; every response "
+             "checked against an independent RFC 9110 range evaluator applied to the file as it was when the request was rendered")
+QUICK_RUNS = 26000
+TWIN_P = 0.08   # this share of the runs drives two independent instances of the scenario one after the other (detsim.runner._run_scenario);
+                # the second instance serves the SAME path as the first (another size, other File objects)
 BATCH = 100
 RUN_WALL_LIMIT_S = 90
 COMPONENTS = {
@@ -57,20 +88,31 @@ COMPONENTS = {
              "_doMultipleRangeRequest/_contentRange/_setContentHeaders", "twisted.web.static.NoRangeStaticProducer/SingleRangeStaticProducer/"
              "MultipleRangeStaticProducer", "twisted.web.server.Site/Request.render", "twisted.web.http.HTTPChannel/Request "
              "(registerProducer/write/finish, pauseProducing/resumeProducing)", "twisted.internet._producer_helpers._PullToPush",
-             "twisted.internet.task.Cooperator (fresh instance, scheduler = simulated clock)", "a real file under $VERIF_SCRATCH"],
+             "twisted.internet.task.Cooperator (fresh instance, scheduler = simulated clock)", "a real file under $VERIF_SCRATCH (rewritten "
+             "between requests)", "static.File.getChild/createSimilarFile (directory tree: a fresh File per request)"],
     "stub": ["TCP transport with a small send buffer (detsim.net.SimTransport, hwm) and injected connection loss",
              "the client (scripted pipelined requests, reads tape-chosen amounts at tape-chosen times)",
+             "direct family: the request (PullConsumer: the dozen request methods File.render and the producers use; pulls by itself, also from inside write())",
+             "server.Site.getResourceFor overridden only to mark the moment between two requests (the file is rewritten there)",
              "wall clock / pid behind the multipart boundary (static.time, static.os.getpid) and http.gmtime -> simulated clock",
              "models/ranges.py and models/http1.py as the independent evaluator and parsers (oracle side)"],
 }
-RULE = ("run = one file (size 0..64 KiB in three regimes), one producer bufferSize (1 byte .. 64 KiB, raised if a response would need more than "
+RULE = ("run = one file path (size 0..64 KiB in three regimes; in 40% of the runs with more than one request the file is rewritten - grown, shrunk, "
+        "emptied, other bytes - before 60% of the later requests, and Range positions are drawn around any of its sizes; 30% of the later requests "
+        "repeat an earlier Range value), File object shared or fresh per request, 1-3 consecutive connections, one producer bufferSize (1 byte .. 64 KiB, raised if a response would need more than "
         "~600 pulls), one send-buffer limit (none / 0 / 1 / 40 / 300 / 5000 / 70000 bytes; in half of the limited runs the transport re-issues "
         "pauseProducing on every over-limit write like abstract.FileDescriptor), 1-3 pipelined GET/HEAD requests with grammar-generated Range headers; "
         "events (request delivery, cooperator tick = burst of 1-8 pulls, client read of n bytes, connection loss in 25% of the runs) are chosen by the "
         "tape; each of four knobs keeps the precondition of a repaired finding out of 10% of the runs; non-trivial = some response to a request with "
-        "a Range header was produced by at least two reads of the file (two resumeProducing() calls), or the connection was lost inside such a body")
-ASSUMPTIONS = ["the file does not change while it is served; Range field values contain no CR/LF/NUL (the channel refuses those: C19)",
+        "a Range header was produced by at least two reads of the file (two resumeProducing() calls), or the connection was lost inside such a body.  "
+        "20% of the runs are the direct family: the same requests rendered into a PullConsumer (nesting depth of pulls from inside write() 0/1/2/6/40, "
+        "each such pull tape-chosen, first pull inside registerProducer() or later, two live responses in 30%, producer stopped between pulls in 15%; "
+        "in 9 of 10 such runs the consumer does not pull from inside the write that completed the announced Content-Length - an open finding)")
+ASSUMPTIONS = ["the file does not change while a response is being produced (it is rewritten only between responses: after Request.finish() of the "
+               "previous one / after the connection is gone, before the next request is looked up); Range field values contain no CR/LF/NUL (the channel refuses those: C19)",
                "StaticProducer.bufferSize (a public class attribute) may be any positive integer",
+               "a consumer of a pull producer may call resumeProducing() whenever it wants data and a producer is registered with it, also from "
+               "inside its own write() (the producers' comments say so); it records the data before it asks for more",
                "If-Range / If-Modified-Since are not sent (conditional requests are outside the statement)",
                "HEAD: either a plain 200 (RFC 9110 14.2: Range is defined for GET only) or the GET status line and header fields is accepted",
                "several ranges: parts may be coalesced, reordered or repeated (15.3.7.2); each part must start and end where a requested range does "
@@ -80,10 +122,11 @@ ASSUMPTIONS = ["the file does not change while it is served; Range field values 
 LEVEL_NOTE = ("Which status/Content-Range/bytes belong to a (size, Range) pair is arithmetic; that part of the verdict rests on input sampling from "
               "a grammar. What the simulator decides is the production mechanism: cursor and part state carried across resumeProducing() calls "
               "(bufferSize knob), pause/resume by transport back-pressure, pipelined responses following one another (producer unregistered, "
-              "file closed), and connection loss inside a response (stopProducing, nothing written afterwards).")
+              "file closed), connection loss inside a response (stopProducing, nothing written afterwards), what survives from one request to "
+              "the next for the same path while the file changes in between, and calls of resumeProducing() nested inside request.write().")
 
 MAXSIZE = 65536
-PATTERN = bytes((i * 7 + (i >> 8) * 13 + (i >> 16) * 101 + 1) & 0xFF for i in range(MAXSIZE))
+PATTERN = bytes((i * 7 + (i >> 8) * 13 + (i >> 16) * 101 + 1) & 0xFF for i in range(MAXSIZE + 256))      # a version of the file = a window of it
 FILE_MTIME = H.EPOCH - 86400
 OWS = b" \t"
 
@@ -185,6 +228,11 @@ AVOID_REPAIRED = 1        # suffix longer than the file / several ranges none sa
 AVOID_NEGATIVE_READ = 1   # multipart response produced by more than one resumeProducing() call
 AVOID_UNPAUSED_START = 1  # pipelined request behind a response whose last write filled the send buffer
 AVOID_STACKED_PAUSE = 1  # transport that re-issues pauseProducing() on every over-limit write (abstract.FileDescriptor behaviour)
+# direct family (repaired in round 4, /repo 08bfbf2): MultipleRangeStaticProducer.resumeProducing raised AttributeError when its consumer
+# pulled again from inside the write() that carried the end of the body (the nested call finishes the response and clears
+# self.request; the outer call then ran `self.request.unregisterProducer()` unguarded - SingleRangeStaticProducer has the guard).
+# In 1 of 10 direct runs the consumer knows the announced Content-Length and does not ask for more once it has arrived.
+AVOID_PULL_INSIDE_COMPLETING_WRITE = 1
 
 
 def cleanup(sim):
@@ -356,6 +404,146 @@ def hazards(value, parsed, size):
     return tags
 
 
+# ------------------------------------------------------------------ the file and its rewrites
+
+def content_of(version):
+    size, shift = version
+    return PATTERN[shift:shift + size]
+
+
+def next_size(sim, cur, cap):
+    """the file as rewritten before a later request -> (kind, new size)"""
+    kind = sim.draw_weighted([("grown", 3), ("shrunk", 3), ("emptied", 1), ("same_size_new_content", 1)], "rewrite")
+    if kind == "emptied" and cur == 0:
+        kind = "grown"
+    if kind == "grown" and cur >= cap:
+        kind = "shrunk"
+    if kind == "shrunk" and cur == 0:
+        kind = "grown"
+    if kind == "grown":
+        return kind, min(cap, cur + max(1, sim.draw_choice([1, 2, 16, cur, cap], "growby")))
+    if kind == "shrunk":
+        return kind, max(0, cur - max(1, sim.draw_choice([1, 2, 16, cur // 2, cur - 1], "shrinkby")))
+    if kind == "emptied":
+        return kind, 0
+    return kind, cur
+
+
+# ------------------------------------------------------------------ a consumer other than the HTTP channel
+
+class PullConsumer:
+    """A minimal IRequest-like consumer for the direct family: what File.render() and the StaticProducers use of a request
+    (method, getHeader, setHeader, setResponseCode, setLastModified, registerProducer / unregisterProducer, write, finish),
+    nothing else.  It asks its pull producer for the next piece whenever it wants one - from its driver between writes, or
+    from INSIDE write() (a consumer that forwards synchronously and finds room for more), up to a nesting limit; the
+    StaticProducers document that they expect this ("be prepared for a re-entrant call")."""
+
+    def __init__(self, sim, r, maxdepth, p_reenter, length_aware, pull_on_register):
+        self.sim = sim
+        self.r = r
+        self.method = r["method"]
+        self.uri = self.path = b"/f"
+        self.clientproto = b"HTTP/1.1"
+        self.prepath, self.postpath = [], []
+        self.code = 200
+        self.headers = {}
+        self.chunks = []
+        self.received = 0
+        self.producer = None
+        self.finished = 0
+        self.depth = 0
+        self.maxdepth = maxdepth
+        self.p_reenter = p_reenter
+        self.length_aware = length_aware
+        self.pull_on_register = pull_on_register
+        self.pulls = 0
+        self.idle = 0
+        self.reentered = False
+        self.stopped = False
+        self.breaches = []          # what the producer must not do to a consumer
+
+    # -- what the resource reads
+    def getHeader(self, name):
+        if name.lower() == b"range":
+            return self.r["value"]
+        return None
+
+    # -- what the resource sets
+    def setHeader(self, name, value):
+        if isinstance(name, str):
+            name = name.encode("latin-1")
+        if isinstance(value, str):
+            value = value.encode("latin-1")
+        self.headers[name.lower()] = value
+
+    def setResponseCode(self, code, message=None):
+        self.code = code
+
+    def setLastModified(self, when):
+        return None
+
+    def header_list(self):
+        return sorted(self.headers.items())
+
+    def announced(self):
+        v = self.headers.get(b"content-length")
+        return int(v) if v is not None and v.isdigit() else None
+
+    # -- IConsumer
+    def registerProducer(self, producer, streaming):
+        if self.producer is not None:
+            self.breaches.append("second-producer-registered")
+        if streaming:
+            self.breaches.append("registered-as-push-producer")
+        self.producer = producer
+        if self.pull_on_register and not self.finished:
+            self.sim.probe("pull_inside_registerProducer")
+            self.pull()
+
+    def unregisterProducer(self):
+        self.producer = None
+
+    def pull(self):
+        self.pulls += 1
+        before = len(self.chunks)
+        self.producer.resumeProducing()
+        self.idle = self.idle + 1 if (len(self.chunks) == before and not self.finished) else 0
+
+    def write(self, data):
+        if not isinstance(data, bytes):
+            self.breaches.append("write-not-bytes")
+            return
+        if self.finished:
+            self.breaches.append("write-after-finish")
+        if self.stopped:
+            self.breaches.append("write-after-stopProducing")
+        self.chunks.append(data)
+        self.received += len(data)
+        if self.producer is None or self.finished or self.stopped or self.depth >= self.maxdepth:
+            return
+        n = self.announced()
+        complete = n is not None and self.received >= n
+        if complete and self.length_aware:
+            return
+        if self.sim.draw_bool(self.p_reenter, "reenter"):
+            self.depth += 1
+            self.reentered = True
+            self.sim.fault("consumer_pulls_inside_write")
+            if self.depth >= 3:
+                self.sim.probe("reentrant_pull_depth_ge_3")
+            if complete:
+                self.sim.probe("pull_inside_completing_write")
+            try:
+                self.pull()
+            finally:
+                self.depth -= 1
+
+    def finish(self):
+        self.finished += 1
+        if self.producer is not None:
+            self.breaches.append("finish-with-producer-registered")
+
+
 # ------------------------------------------------------------------ scenario
 
 def run(sim):
@@ -364,6 +552,12 @@ def run(sim):
         _hh._nameEncoder._canonicalHeaderCache.clear()
     except AttributeError:
         pass
+    obs = _state.pop("observer", None)      # second instance of a twin run: the first one's observer
+    if obs is not None:
+        try:
+            globalLogPublisher.removeObserver(obs)
+        except ValueError:
+            pass
     regime = sim.draw_weighted([("tiny", 4), ("small", 4), ("big", 2)], "regime")
     if regime == "tiny":
         size = sim.draw_int(0, 40, "size")
@@ -377,24 +571,56 @@ def run(sim):
             size = max(0, min(MAXSIZE, size - sim.draw_int(0, 300, "sizeoff")))
         bufsize = sim.draw_choice([65536, 4096, 1000, 16384, 65535, 32768, 8192, 500], "bufsize")
     hwm = sim.draw_choice([None, 0, 1, 40, 300, 5000, 70000], "hwm")
-    nreq = sim.draw_weighted([(1, 3), (2, 3), (3, 2)], "nreq")
+    consumer = sim.draw_weighted([("channel", 8), ("direct", 2)], "consumer")
+    nconn = sim.draw_weighted([(1, 6), (2, 3), (3, 1)], "nconn")
+    nreqs = [sim.draw_weighted([(1, 3), (2, 3), (3, 2)] if nconn == 1 else [(1, 4), (2, 2), (3, 1)], "nreq") for _ in range(nconn)]
+    total = sum(nreqs)
     avoid = sim.draw_weighted([(False, 10 - AVOID_REPAIRED), (True, AVOID_REPAIRED)], "avoid-repaired-findings")
     avoid_negread = sim.draw_weighted([(False, 10 - AVOID_NEGATIVE_READ), (True, AVOID_NEGATIVE_READ)], "avoid-multipart-multicall")
     avoid_unpaused = sim.draw_weighted([(False, 10 - AVOID_UNPAUSED_START), (True, AVOID_UNPAUSED_START)], "avoid-pipelined-backpressure")
-    if avoid_unpaused and nreq > 1:
+    if avoid_unpaused and max(nreqs) > 1:
         hwm = None
     avoid_repause = sim.draw_weighted([(False, 10 - AVOID_STACKED_PAUSE), (True, AVOID_STACKED_PAUSE)], "avoid-stacked-pause")
     repause = hwm is not None and not avoid_repause and sim.draw_bool(0.5, "repause")
     bursts = sim.draw_choice([[1], [1, 1, 2, 4], [1, 2], [3, 1, 8]], "bursts")
     inject_loss = sim.draw_bool(0.25, "inject-loss")
     loss_at = sim.draw_int(1, 40, "loss-at") if inject_loss else None
-    content = PATTERN[:size]
+    loss_conn = sim.draw_int(0, nconn - 1, "loss-conn") if inject_loss and nconn > 1 else 0
+    # the file between requests: rewritten (grown, shrunk, emptied, other content) in a share of the runs
+    changing = total > 1 and sim.draw_bool(0.4, "file-rewritten-between-requests")
+    by_rename = changing and sim.draw_bool(0.5, "rewrite-by-rename")
+    tree = sim.draw_weighted([("child", 5), ("directory", 4)], "tree")
+    site_per_conn = nconn > 1 and sim.draw_bool(0.5, "site-per-connection")
+    cap = {"tiny": 80, "small": 3000, "big": MAXSIZE}[regime]
+    plan = [(size, 0)]              # (size, content shift) of the file when request k is rendered
+    kinds = [None]
+    for k in range(1, total):
+        sz, sh = plan[-1]
+        kind = None
+        if changing and sim.draw_bool(0.6, "rewrite-here"):
+            kind, sz = next_size(sim, sz, cap)
+            sh = (k * 37) % 255 + 1
+        plan.append((sz, sh))
+        kinds.append(kind)
+    sizes = sorted(set(v[0] for v in plan))
+    # the consumer of the direct family
+    maxdepth = p_reenter = length_aware = pull_on_register = two_live = stop_req = stop_after = None
+    if consumer == "direct":
+        maxdepth = sim.draw_choice([0, 1, 2, 6, 40], "reenter-depth")
+        p_reenter = sim.draw_choice([1.0, 0.5], "reenter-p")
+        length_aware = sim.draw_weighted([(True, AVOID_PULL_INSIDE_COMPLETING_WRITE), (False, 10 - AVOID_PULL_INSIDE_COMPLETING_WRITE)],
+                                         "avoid-pull-inside-completing-write")
+        pull_on_register = sim.draw_bool(0.5, "pull-inside-register")
+        two_live = sim.draw_bool(0.3, "two-live-responses")
+        if sim.draw_bool(0.15, "consumer-stops"):
+            stop_req = sim.draw_int(0, total - 1, "stop-which")
+            stop_after = sim.draw_int(0, 5, "stop-after")
 
     # ---- seams
-    _saved["cooperate"] = _producer_helpers.cooperate
-    _saved["bufferSize"] = static.StaticProducer.bufferSize
-    _saved["time"] = static.time
-    _saved["os"] = static.os
+    _saved.setdefault("cooperate", _producer_helpers.cooperate)     # setdefault: the second instance of a twin run keeps the originals
+    _saved.setdefault("bufferSize", static.StaticProducer.bufferSize)
+    _saved.setdefault("time", static.time)
+    _saved.setdefault("os", static.os)
     static.StaticProducer.bufferSize = bufsize
     static.time = _TimeProxy(sim.clock)
     static.os = _OsProxy()
@@ -429,280 +655,508 @@ def run(sim):
     _state["observer"] = observer
     globalLogPublisher.addObserver(observer)
 
-    d = tempfile.mkdtemp(prefix="verif_c25_", dir=scratch_root())
-    _state["dir"] = d
+    d = _state["dir"]
+    if d is None:
+        d = tempfile.mkdtemp(prefix="verif_c25_", dir=scratch_root())
+        _state["dir"] = d
+    else:
+        sim.probe("twin_second_instance_serves_the_same_path")      # left by the first instance of a twin run
     path = os.path.join(d, "f.dat")
-    with open(path, "wb") as f:
-        f.write(content)
-    os.utime(path, (FILE_MTIME, FILE_MTIME))
+    disk = {"v": None, "n": 0}
+    cur = {"base": 0, "n": 0, "k": 0, "conn": 0, "last_conn": None}
 
-    book = {"spin": False}
+    def put_file(version, where=""):
+        """(re)write the served file.  Only ever called while no response is being produced."""
+        if disk["v"] == version:
+            return
+        data = content_of(version)
+        if disk["v"] is not None:
+            sim.fault("file_rewritten_between_requests")
+            sim.event("rewrite", where, disk["v"][0], "->", version[0])
+            old = disk["v"][0]
+            sim.probe("file_grown" if version[0] > old else "file_shrunk" if 0 < version[0] < old else
+                      "file_emptied" if version[0] < old else "file_same_size_new_content")
+            if where:
+                sim.probe("rewrite_" + where)
+        if by_rename and disk["v"] is not None:
+            with open(path + ".new", "wb") as f:
+                f.write(data)
+            os.replace(path + ".new", path)
+            sim.probe("rewrite_by_rename")
+        else:
+            with open(path, "wb") as f:
+                f.write(data)
+        mt = FILE_MTIME + 60 * disk["n"]
+        os.utime(path, (mt, mt))
+        disk["v"] = version
+        disk["n"] += 1
+
+    put_file(plan[0])
+
+    book = {"spin": False, "k": None}
     opened = []
 
     class TFile(static.File):
         def openForReading(self):
             tf = TrackedFile(static.File.openForReading(self), book)
+            tf.k = cur["k"]
             opened.append(tf)
             return tf
 
-    root = resource.Resource()
-    root.putChild(b"f", TFile(path, defaultType="application/octet-stream"))
-    site = server.Site(root, reactor=sim.clock)
+    def before_render():
+        """between two requests: the previous response has been handed over completely (Request.finish() has been called, or the
+        connection is gone), the next request has not been looked at yet"""
+        k = min(cur["base"] + cur["n"], total - 1)
+        cur["n"] += 1
+        cur["k"] = k
+        where = "before_first_request"
+        if cur["last_conn"] is not None:
+            where = "between_pipelined_requests" if cur["last_conn"] == cur["conn"] else "between_connections"
+        cur["last_conn"] = cur["conn"]
+        put_file(plan[k], where)
+
+    class HookSite(server.Site):
+        def getResourceFor(self, request):
+            before_render()
+            return server.Site.getResourceFor(self, request)
+
+    def make_root():
+        if tree == "directory":
+            return TFile(d, defaultType="application/octet-stream")      # a fresh File per request (getChild -> createSimilarFile)
+        root = resource.Resource()
+        root.putChild(b"f", TFile(path, defaultType="application/octet-stream"))
+        return root
+
+    target = b"/f.dat" if tree == "directory" else b"/f"
 
     # ---- requests
-    reqs = []
-    stream = bytearray()
-    bounds = []
-    for i in range(nreq):
-        last = i == nreq - 1
-        method = sim.draw_weighted([(b"GET", 5), (b"HEAD", 1)], "method")
-        version, close = b"HTTP/1.1", False
-        if last:
-            k = sim.draw_weighted([(0, 5), (1, 2), (2, 1)], "lastkind")
-            if k == 1:
-                version = b"HTTP/1.0"
-            elif k == 2:
-                close = True
-        for _ in range(6):
-            value = gen_range(sim, size, not avoid)
-            parsed = R.parse_range(None if value is None else value.strip(OWS))
-            tags = hazards(value, parsed, size)
-            if not (avoid and tags):
-                break
-        else:
-            value, parsed, tags = None, R.parse_range(None), []
-        exp = R.evaluate(parsed, size)
-        w = method + b" /f " + version + b"\r\nHost: h.test\r\n"
-        if value is not None:
-            w += sim.draw_choice([b"Range", b"range", b"RANGE"], "hname") + b":" + sim.draw_choice([b" ", b"", b"  ", b"\t"], "ows") + value + \
-                sim.draw_choice([b"", b" "], "ows2") + b"\r\n"
-        if close:
-            w += b"Connection: close\r\n"
-        w += b"\r\n"
-        stream += w
-        bounds.append(len(stream))
-        reqs.append({"method": method, "version": version, "close": close, "value": value, "parsed": parsed, "exp": exp, "tags": tags})
-        sim.event("request", i, method, version, "close" if close else "-", "absent" if value is None else value, exp.why)
-        sim.probe("class_" + exp.why.replace("-", "_"))
-        for t in tags:
-            sim.probe("finding_precondition_" + t.replace("-", "_"))
-    stream = bytes(stream)
+    allreqs = []
+    conns = []
+    for ci in range(nconn):
+        creqs = []
+        stream = bytearray()
+        bounds = []
+        for i in range(nreqs[ci]):
+            k = len(allreqs)
+            rsize = plan[k][0]
+            last = i == nreqs[ci] - 1
+            method = sim.draw_weighted([(b"GET", 5), (b"HEAD", 1)], "method")
+            version, close = b"HTTP/1.1", False
+            if last and consumer == "channel":
+                kk = sim.draw_weighted([(0, 5), (1, 2), (2, 1)], "lastkind")
+                if kk == 1:
+                    version = b"HTTP/1.0"
+                elif kk == 2:
+                    close = True
+            # positions are drawn around the size the file has for this request - or around another size it has in this run
+            ref = rsize
+            if len(sizes) > 1 and sim.draw_bool(0.4, "range-around-other-size"):
+                ref = sim.draw_choice(sizes, "refsize")
+            repeated = False
+            for _ in range(6):
+                repeated = k > 0 and sim.draw_bool(0.3, "repeat-range")
+                if repeated:
+                    value = allreqs[sim.draw_int(0, k - 1, "repeat-which")]["value"]      # clients repeat themselves
+                else:
+                    value = gen_range(sim, ref, not avoid)
+                parsed = R.parse_range(None if value is None else value.strip(OWS))
+                tags = hazards(value, parsed, rsize)
+                if not (avoid and tags):
+                    break
+            else:
+                value, parsed, tags, repeated = None, R.parse_range(None), [], False
+            exp = R.evaluate(parsed, rsize)
+            w = method + b" " + target + b" " + version + b"\r\nHost: h.test\r\n"
+            if value is not None:
+                w += sim.draw_choice([b"Range", b"range", b"RANGE"], "hname") + b":" + sim.draw_choice([b" ", b"", b"  ", b"\t"], "ows") + value + \
+                    sim.draw_choice([b"", b" "], "ows2") + b"\r\n"
+            if close:
+                w += b"Connection: close\r\n"
+            w += b"\r\n"
+            stream += w
+            bounds.append(len(stream))
+            r = {"k": k, "conn": ci, "method": method, "version": version, "close": close, "value": value, "parsed": parsed, "exp": exp,
+                 "tags": tags, "size": rsize, "content": content_of(plan[k])}
+            creqs.append(r)
+            allreqs.append(r)
+            sim.event("request", ci, i, method, version, "close" if close else "-", "absent" if value is None else value, rsize, exp.why)
+            sim.probe("class_" + exp.why.replace("-", "_"))
+            for t in tags:
+                sim.probe("finding_precondition_" + t.replace("-", "_"))
+            if repeated and value is not None:
+                sim.probe("range_value_repeated")
+                if any(q["value"] == value and q["size"] != rsize and q["exp"].resolved != exp.resolved for q in allreqs[:-1]):
+                    sim.probe("range_value_repeated_resolves_differently_after_rewrite")
+        conns.append((creqs, bytes(stream), bounds))
     # keep runs short: a response should not take more than several hundred pulls
-    due = sum(max(size, sum(b - a + 1 for a, b in r["exp"].resolved)) for r in reqs)
+    due = sum(max(r["size"], sum(b - a + 1 for a, b in r["exp"].resolved)) for r in allreqs)
     while due // bufsize > 600:
         bufsize *= 4
-    if avoid_negread and any(r["value"] is not None and b"," in r["value"] for r in reqs):
+    if avoid_negread and any(r["value"] is not None and b"," in r["value"] for r in allreqs):
         bufsize = max(bufsize, 2 * due + 8192)      # every multipart response is produced by a single call
     static.StaticProducer.bufferSize = bufsize
-    sim.config = {"regime": regime, "size": size, "bufferSize": bufsize, "hwm": hwm, "nreq": nreq, "avoid_repaired_findings": avoid,
-                  "avoid_multipart_multicall": avoid_negread, "avoid_pipelined_backpressure": avoid_unpaused, "repause": repause,
-                  "bursts": bursts, "loss_at": loss_at, "ranges": [None if r["value"] is None else r["value"].decode("latin-1") for r in reqs]}
+    sim.config = {"regime": regime, "consumer": consumer, "sizes": [v[0] for v in plan], "rewrites": kinds, "rewrite_by_rename": by_rename,
+                  "tree": tree, "site_per_connection": site_per_conn, "bufferSize": bufsize, "hwm": hwm, "nreqs": nreqs,
+                  "avoid_repaired_findings": avoid, "avoid_multipart_multicall": avoid_negread, "avoid_pipelined_backpressure": avoid_unpaused,
+                  "repause": repause, "bursts": bursts, "loss_at": loss_at, "loss_conn": loss_conn,
+                  "direct": None if consumer != "direct" else {"reenter_depth": maxdepth, "reenter_p": p_reenter, "length_aware": length_aware,
+                                                              "pull_inside_register": pull_on_register, "two_live": two_live,
+                                                              "stop_request": stop_req, "stop_after": stop_after},
+                  "ranges": [None if r["value"] is None else r["value"].decode("latin-1") for r in allreqs]}
 
     def witness_of(r):
         return r["tags"][0] if r["tags"] else r["exp"].why
 
     def describe():
-        return "size=%d bufferSize=%d hwm=%r requests=%r" % (size, bufsize, hwm, [(r["method"], r["version"], r["value"]) for r in reqs])
+        return "sizes=%r bufferSize=%d hwm=%r tree=%s requests=%r" % ([v[0] for v in plan], bufsize, hwm, tree,
+                                                                    [(r["conn"], r["method"], r["version"], r["value"]) for r in allreqs])
 
-    srv = H.Server(sim, None, hwm=hwm, site=site, transport_cls=RepausingTransport)
-    t = srv.t
-    t.repause = repause
-    queue = net.cut(sim, stream, boundaries=bounds)
-    lost = False
-    nev = 0
-    try:
-        with sim.guard("raised", "drive"):
-            while True:
-                sim.step(20000)
-                now = sim.clock.seconds()
-                nt = sim.clock.next_time()
-                ev = []
-                if queue and srv.can_deliver():
-                    ev.append(("deliver", 3))
-                if nt is not None and nt <= now:
-                    ev.append(("pull", 6))
-                if t.out:
-                    ev.append(("take", 3))
-                if not ev:
-                    break
-                nev += 1
-                if loss_at is not None and nev == loss_at:
-                    clean = sim.draw_bool(0.5, "loss-clean")
-                    sim.event("lose", "clean" if clean else "reset", len(t.written))
-                    sim.fault("connection_lost")
-                    lost = True
-                    srv.lose(clean=clean)
-                    # anything still scheduled (a cooperator tick) runs now: it must not write
-                    for _ in range(8):
-                        nt = sim.clock.next_time()
-                        if nt is None or nt > sim.clock.seconds():
-                            break
+    flags = {"multi_call": False, "any_lost": False}
+
+    # ================================================================== family 1: through Site / HTTPChannel on a SimTransport
+    def serve_connection(ci, site):
+        reqs, stream, bounds = conns[ci]
+        nreq = len(reqs)
+        cur["base"], cur["n"], cur["conn"] = reqs[0]["k"], 0, ci
+        obase = len(opened)
+        srv = H.Server(sim, None, hwm=hwm, site=site, transport_cls=RepausingTransport)
+        t = srv.t
+        t.repause = repause
+        queue = net.cut(sim, stream, boundaries=bounds)
+        lost = False
+        nev = 0
+        pulls["idle"] = 0
+        my_loss = loss_at if ci == loss_conn else None
+        try:
+            with sim.guard("raised", "drive"):
+                while True:
+                    sim.step(20000)
+                    now = sim.clock.seconds()
+                    nt = sim.clock.next_time()
+                    ev = []
+                    if queue and srv.can_deliver():
+                        ev.append(("deliver", 3))
+                    if nt is not None and nt <= now:
+                        ev.append(("pull", 6))
+                    if t.out:
+                        ev.append(("take", 3))
+                    if not ev:
+                        break
+                    nev += 1
+                    if my_loss is not None and nev == my_loss:
+                        clean = sim.draw_bool(0.5, "loss-clean")
+                        sim.event("lose", "clean" if clean else "reset", len(t.written))
+                        sim.fault("connection_lost")
+                        lost = True
+                        srv.lose(clean=clean)
+                        # anything still scheduled (a cooperator tick) runs now: it must not write
+                        for _ in range(8):
+                            nt = sim.clock.next_time()
+                            if nt is None or nt > sim.clock.seconds():
+                                break
+                            sim.clock.run_next()
+                        break
+                    what = sim.draw_weighted(ev, "ev")
+                    if what == "deliver":
+                        piece = queue.pop(0)
+                        sim.event("deliver", len(piece))
+                        srv.deliver(piece)
+                    elif what == "pull":
+                        pulls["burst"] = sim.draw_choice(bursts, "burst")
+                        if pulls["burst"] > 1:
+                            sim.probe("pull_burst")
+                        sim.event("tick", pulls["burst"])
+                        before = len(t.written)
                         sim.clock.run_next()
-                    break
-                what = sim.draw_weighted(ev, "ev")
-                if what == "deliver":
-                    piece = queue.pop(0)
-                    sim.event("deliver", len(piece))
-                    srv.deliver(piece)
-                elif what == "pull":
-                    pulls["burst"] = sim.draw_choice(bursts, "burst")
-                    if pulls["burst"] > 1:
-                        sim.probe("pull_burst")
-                    sim.event("tick", pulls["burst"])
-                    before = len(t.written)
-                    sim.clock.run_next()
-                    # a producer that is asked again and again and neither writes nor finishes will never finish: stop
-                    # asking (the missing response is the verdict).  A legitimate pull writes, or finishes the response.
-                    pulls["idle"] = pulls["idle"] + 1 if len(t.written) == before else 0
-                    if pulls["idle"] > 60:
-                        sim.event("producer-makes-no-progress")
-                        break
-                else:
-                    n = sim.draw_choice([None, 1, 7, 50, 1000, 20000, 2], "take")
-                    if n is None or n >= len(t.out):
-                        sim.event("take", "all", len(t.out))
-                        t.take()
+                        # a producer that is asked again and again and neither writes nor finishes will never finish: stop
+                        # asking (the missing response is the verdict).  A legitimate pull writes, or finishes the response.
+                        pulls["idle"] = pulls["idle"] + 1 if len(t.written) == before else 0
+                        if pulls["idle"] > 60:
+                            sim.event("producer-makes-no-progress")
+                            break
                     else:
-                        sim.event("take", n)
-                        sim.fault("client_partial_read")
-                        del t.out[:n]
-                        t._drained()
-    except _Spin:
-        pass
-    if book["spin"]:
-        r = reqs[len(opened) - 1] if 0 < len(opened) <= len(reqs) else reqs[-1]
-        sim.fail("never-finishes", witness_of(r), "a producer kept reading at end of file without finishing: %s" % describe())
-    npause = t.log.count("pause")
-    if npause:
-        sim.fault("client_stall_producer_paused", npause)
-    if not lost:
-        with sim.guard("raised", "close"):
-            srv.lose(clean=True)
-    wire = bytes(t.written)
-    methods = [r["method"] for r in reqs]
-    rs, st, used = http1.parse_responses(wire, methods, eof=True)
-    sim.event("wire", len(wire), "responses", len(rs), st if isinstance(st, str) else st[0])
-
-    def detail(i=None):
-        s = describe()
-        if i is not None and i < len(rs):
-            m = rs[i]
-            s += "\n response %d: %d %r body %d bytes %r" % (i, m.code, [(n, v) for n, v in m.headers if n.startswith(b"content-")], len(m.body), m.body[:80])
-        return s
-
-    # ---- complete responses
-    multi_call = False
-    for i, m in enumerate(rs):
-        r = reqs[i]
-        exp = r["exp"]
-        if m.framing == "close" and not (i == nreq - 1):
-            sim.fail("framing", "close-delimited-not-last", detail(i))
-        if m.framing == "close" and lost:
-            break       # a close-delimited body cut by the loss: handled below as the truncated response
-        sim.event("response", i, m.code, m.get(b"content-range"), len(m.body))
-        if m.code >= 500:
-            sim.fail("internal-error", witness_of(r), detail(i))
-        if r["method"] == b"HEAD":
-            failure = R.check_head(exp, size, m.code, m.headers)
-            sim.probe("head_request")
+                        n = sim.draw_choice([None, 1, 7, 50, 1000, 20000, 2], "take")
+                        if n is None or n >= len(t.out):
+                            sim.event("take", "all", len(t.out))
+                            t.take()
+                        else:
+                            sim.event("take", n)
+                            sim.fault("client_partial_read")
+                            del t.out[:n]
+                            t._drained()
+        except _Spin:
+            pass
+        if book["spin"]:
+            r = allreqs[book["k"]] if book["k"] is not None else reqs[-1]
+            sim.fail("never-finishes", witness_of(r), "a producer kept reading at end of file without finishing: %s" % describe())
+        npause = t.log.count("pause")
+        if npause:
+            sim.fault("client_stall_producer_paused", npause)
+        if not lost:
+            with sim.guard("raised", "close"):
+                srv.lose(clean=True)
         else:
-            failure = R.check_get(exp, size, content, m.code, m.headers, m.body)
-        if failure is not None:
-            sim.fail(failure[0], failure[1], failure[2] + "\n " + detail(i))
-        sim.probe("status_%d" % m.code)
-        if exp.free:
-            sim.probe("no_verdict_on_status_lenient_form")
-        if r["method"] == b"GET" and m.code == 206:
-            ct = m.get(b"content-type")
-            bnd = R.boundary_of(ct[-1]) if ct else None
-            if bnd is not None:
-                sim.probe("multipart_response")
-                parts, _ = R.parse_multipart(m.body, bnd)
-                # where did the transport writes fall?  (probe only)
-                body0 = m.end - len(m.body)
-                edges = set()
-                acc = 0
-                for wr in t.writes:
-                    acc += len(wr)
-                    edges.add(acc)
-                for p in parts:
-                    if any(body0 + p.start < e < body0 + p.end for e in edges):
-                        sim.probe("part_straddles_pull")
-                        break
-            else:
-                sim.probe("single_part_206")
-            if exp.resolved and any(s[0] == "int" and s[2] is not None and s[2] >= size for s in r["parsed"].specs):
-                sim.probe("last_pos_clamped")
-        if i < len(opened) and opened[i].data_reads >= 2 and r["value"] is not None:
-            multi_call = True
-            sim.probe("multi_call_production")
-    complete = len(rs)
-    if rs and rs[-1].framing == "close" and lost:
-        complete -= 1
+            flags["any_lost"] = True
+        wire = bytes(t.written)
+        methods = [r["method"] for r in reqs]
+        rs, st, used = http1.parse_responses(wire, methods, eof=True)
+        sim.event("wire", ci, len(wire), "responses", len(rs), st if isinstance(st, str) else st[0])
 
-    if not lost:
-        if not (st == "ok" and len(rs) == nreq):
-            i = min(len(rs), nreq - 1)
-            # 'ok' with responses missing = not one byte of the next response was written; 'incomplete' = it stops short
-            clause = {"ok": "response-missing", "incomplete": "response-incomplete"}.get(st, "response-stream")
-            kind = "" if isinstance(st, str) else st[0] + ":"
-            sim.fail(clause, kind + witness_of(reqs[i]),
-                     "parsed %d of %d responses, then %r\n %s\n wire tail %r" % (len(rs), nreq, st, detail(), wire[used:used + 200]))
-        sim.check("write-after-connection-lost", t.writes_after_lost == 0, "client-closed", detail)
-    else:
-        # relaxed: complete responses were checked above; the one cut by the loss must be a prefix of what was due
-        if isinstance(st, tuple) and st[0] == "bad":
-            sim.fail("response-stream", "bad:%s" % witness_of(reqs[min(complete, nreq - 1)]), "%r\n %s" % (st, detail()))
-        if isinstance(st, tuple) and st[0] == "extra":
-            sim.fail("response-stream", "extra", "%r\n %s" % (st, detail()))
-        if complete < nreq:
-            start = rs[complete - 1].end if complete else 0
-            rest = wire[start:]
-            k = rest.find(b"\r\n\r\n")
-            if k >= 0:
-                r = reqs[complete]
-                hs, hst, _ = http1.parse_responses(rest[:k + 4], [b"HEAD"], eof=True)
-                if not (len(hs) == 1 and hst == "ok"):
-                    sim.fail("response-stream", "bad-header-section:%s" % witness_of(r), "%r %r" % (hst, rest[:k + 4]))
-                m = hs[0]
-                if m.code >= 500:
-                    sim.fail("internal-error", witness_of(r), detail())
-                partial = rest[k + 4:]
-                if r["method"] == b"HEAD":
-                    sim.check("body", partial == b"", "head-with-body", detail)
-                    failure = R.check_head(r["exp"], size, m.code, m.headers)
-                elif m.get(b"transfer-encoding"):
-                    failure = None
+        def detail(i=None):
+            s = describe()
+            if i is not None and i < len(rs):
+                m = rs[i]
+                s += "\n connection %d response %d (file of %d bytes): %d %r body %d bytes %r" % (
+                    ci, i, reqs[i]["size"], m.code, [(n, v) for n, v in m.headers if n.startswith(b"content-")], len(m.body), m.body[:80])
+            return s
+
+        # ---- complete responses: each judged against the file as it was when the request was rendered
+        for i, m in enumerate(rs):
+            r = reqs[i]
+            exp = r["exp"]
+            size, content = r["size"], r["content"]
+            if m.framing == "close" and not (i == nreq - 1):
+                sim.fail("framing", "close-delimited-not-last", detail(i))
+            if m.framing == "close" and lost:
+                break       # a close-delimited body cut by the loss: handled below as the truncated response
+            sim.event("response", ci, i, m.code, m.get(b"content-range"), len(m.body))
+            if m.code >= 500:
+                sim.fail("internal-error", witness_of(r), detail(i))
+            if r["method"] == b"HEAD":
+                failure = R.check_head(exp, size, m.code, m.headers)
+                sim.probe("head_request")
+            else:
+                failure = R.check_get(exp, size, content, m.code, m.headers, m.body)
+            if failure is not None:
+                sim.fail(failure[0], failure[1], failure[2] + "\n " + detail(i))
+            sim.probe("status_%d" % m.code)
+            if exp.free:
+                sim.probe("no_verdict_on_status_lenient_form")
+            if r["method"] == b"GET" and m.code == 206:
+                ct = m.get(b"content-type")
+                bnd = R.boundary_of(ct[-1]) if ct else None
+                if bnd is not None:
+                    sim.probe("multipart_response")
+                    parts, _ = R.parse_multipart(m.body, bnd)
+                    # where did the transport writes fall?  (probe only)
+                    body0 = m.end - len(m.body)
+                    edges = set()
+                    acc = 0
+                    for wr in t.writes:
+                        acc += len(wr)
+                        edges.add(acc)
+                    for p in parts:
+                        if any(body0 + p.start < e < body0 + p.end for e in edges):
+                            sim.probe("part_straddles_pull")
+                            break
                 else:
-                    failure = R.check_get(r["exp"], size, content, m.code, m.headers, partial, partial=True)
-                if failure is not None:
-                    sim.fail(failure[0], failure[1], "(response cut by connection loss) " + failure[2] + "\n " + detail())
-                if partial:
-                    sim.probe("loss_inside_body")
-                    if r["value"] is not None:
-                        multi_call = True
-            else:
-                sim.probe("loss_before_response_started")
-        else:
-            sim.probe("loss_after_last_response")
-        sim.check("write-after-connection-lost", t.writes_after_lost == 0, "", detail)
+                    sim.probe("single_part_206")
+                if exp.resolved and any(s[0] == "int" and s[2] is not None and s[2] >= size for s in r["parsed"].specs):
+                    sim.probe("last_pos_clamped")
+            if obase + i < len(opened) and opened[obase + i].data_reads >= 2 and r["value"] is not None:
+                flags["multi_call"] = True
+                sim.probe("multi_call_production")
+        complete = len(rs)
+        if rs and rs[-1].framing == "close" and lost:
+            complete -= 1
 
-    sim.check("internal-error-logged", not logged, logged[0][0] if logged else "", lambda: "%r\n %s" % (logged[:3], detail()))
+        if not lost:
+            if not (st == "ok" and len(rs) == nreq):
+                i = min(len(rs), nreq - 1)
+                # 'ok' with responses missing = not one byte of the next response was written; 'incomplete' = it stops short
+                clause = {"ok": "response-missing", "incomplete": "response-incomplete"}.get(st, "response-stream")
+                kind = "" if isinstance(st, str) else st[0] + ":"
+                sim.fail(clause, kind + witness_of(reqs[i]),
+                         "parsed %d of %d responses, then %r\n %s\n wire tail %r" % (len(rs), nreq, st, detail(), wire[used:used + 200]))
+            sim.check("write-after-connection-lost", t.writes_after_lost == 0, "client-closed", detail)
+        else:
+            # relaxed: complete responses were checked above; the one cut by the loss must be a prefix of what was due
+            if isinstance(st, tuple) and st[0] == "bad":
+                sim.fail("response-stream", "bad:%s" % witness_of(reqs[min(complete, nreq - 1)]), "%r\n %s" % (st, detail()))
+            if isinstance(st, tuple) and st[0] == "extra":
+                sim.fail("response-stream", "extra", "%r\n %s" % (st, detail()))
+            if complete < nreq:
+                start = rs[complete - 1].end if complete else 0
+                rest = wire[start:]
+                kx = rest.find(b"\r\n\r\n")
+                if kx >= 0:
+                    r = reqs[complete]
+                    size, content = r["size"], r["content"]
+                    hs, hst, _ = http1.parse_responses(rest[:kx + 4], [b"HEAD"], eof=True)
+                    if not (len(hs) == 1 and hst == "ok"):
+                        sim.fail("response-stream", "bad-header-section:%s" % witness_of(r), "%r %r" % (hst, rest[:kx + 4]))
+                    m = hs[0]
+                    if m.code >= 500:
+                        sim.fail("internal-error", witness_of(r), detail())
+                    partial = rest[kx + 4:]
+                    if r["method"] == b"HEAD":
+                        sim.check("body", partial == b"", "head-with-body", detail)
+                        failure = R.check_head(r["exp"], size, m.code, m.headers)
+                    elif m.get(b"transfer-encoding"):
+                        failure = None
+                    else:
+                        failure = R.check_get(r["exp"], size, content, m.code, m.headers, partial, partial=True)
+                    if failure is not None:
+                        sim.fail(failure[0], failure[1], "(response cut by connection loss) " + failure[2] + "\n " + detail())
+                    if partial:
+                        sim.probe("loss_inside_body")
+                        if r["value"] is not None:
+                            flags["multi_call"] = True
+                else:
+                    sim.probe("loss_before_response_started")
+            else:
+                sim.probe("loss_after_last_response")
+            sim.check("write-after-connection-lost", t.writes_after_lost == 0, "", detail)
+        if nreq > 1 and complete > 1:
+            sim.probe("pipelined_responses")
+        # the file is only rewritten between responses: whatever this connection opened must be closed by now
+        sim.check("file-left-open", all(f.closed for f in opened), "lost" if lost else "complete",
+                  lambda: "%d of %d files still open after connection %d; %s" % (sum(1 for f in opened if not f.closed), len(opened), ci, detail()))
+
+    # ================================================================== family 2: File.render() into a consumer that pulls by itself
+    def serve_directly():
+        sim.probe("direct_consumer_run")
+        root = make_root()
+        pending = list(allreqs)
+        active = []
+
+        def ddetail(c=None):
+            s = describe() + " consumer=%r" % (sim.config["direct"],)
+            if c is not None:
+                body = b"".join(c.chunks)
+                s += "\n request %d (file of %d bytes) %r: %d %r finished=%d body %d bytes in %d writes %r" % (
+                    c.r["k"], c.r["size"], c.r["value"], c.code, [(n, v) for n, v in c.header_list() if n.startswith(b"content-")],
+                    c.finished, len(body), len(c.chunks), body[:80])
+            return s
+
+        def judge(c, partial=False):
+            r = c.r
+            body = b"".join(c.chunks)
+            sim.event("direct-response", r["k"], c.code, c.headers.get(b"content-range"), len(body), "stopped" if partial else c.finished)
+            sim.check("consumer-contract", not c.breaches, c.breaches[0] if c.breaches else "", lambda: "%r\n %s" % (c.breaches, ddetail(c)))
+            if not partial:
+                sim.check("finish-count", c.finished == 1, "finished-%d-times" % min(c.finished, 2), lambda: ddetail(c))
+            if c.code >= 500:
+                sim.fail("internal-error", witness_of(r), ddetail(c))
+            if r["method"] == b"HEAD":
+                sim.check("body", body == b"", "head-with-body", lambda: ddetail(c))
+                failure = R.check_head(r["exp"], r["size"], c.code, c.header_list())
+                sim.probe("head_request")
+            else:
+                failure = R.check_get(r["exp"], r["size"], r["content"], c.code, c.header_list(), body, partial=partial)
+            if failure is not None:
+                sim.fail(failure[0], failure[1], ("(consumer stopped the producer) " if partial else "") + failure[2] + "\n " + ddetail(c))
+            sim.probe("status_%d" % c.code)
+            if c.tf is not None and c.tf.data_reads >= 2 and r["value"] is not None:
+                flags["multi_call"] = True
+                sim.probe("multi_call_production")
+            if c.reentered and r["value"] is not None:
+                flags["multi_call"] = True
+
+        def guarded(c, what, fn):
+            """an exception out of the code under test is a verdict; the witness says whether the consumer had pulled from inside
+            a write by then"""
+            try:
+                return fn()
+            except (Violation, StepLimit, _Spin):
+                raise
+            except Exception as e:
+                tb = traceback.extract_tb(e.__traceback__)[-1]
+                sim.fail("raised", "direct%s:%s" % ("-reentrant" if c.reentered else "", type(e).__name__),
+                         "%s in %s: %s (at %s:%s %s)\n %s" % (type(e).__name__, what, str(e)[:200], tb.filename.split("/")[-1], tb.lineno, tb.name, ddetail(c)))
+
+        def settle(c):
+            """after every call into the code under test: has the response ended?"""
+            if c in active and (c.finished or c.producer is None):
+                active.remove(c)
+                if not c.finished:
+                    sim.fail("response-incomplete", witness_of(c.r), "the producer unregistered itself without finishing the response\n " + ddetail(c))
+                judge(c)
+
+        while pending or active:
+            sim.step(20000)
+            ev = []
+            if pending and (not active or (two_live and len(active) < 2 and plan[pending[0]["k"]] == disk["v"])):
+                ev.append(("start", 3))
+            for j in range(len(active)):
+                ev.append((j, 4))
+            what = ev[0][0] if len(ev) == 1 else sim.draw_weighted(ev, "direct-ev")
+            if what == "start":
+                r = pending.pop(0)
+                if active:
+                    sim.probe("two_live_producers_on_one_path")
+                cur["k"] = r["k"]
+                put_file(plan[r["k"]], "between_direct_requests")
+                c = PullConsumer(sim, r, maxdepth, p_reenter, length_aware, pull_on_register)
+                c.tf = None
+                nopen = len(opened)
+                try:
+                    result = guarded(c, "render", lambda: (root.getChild(b"f.dat", c) if tree == "directory"
+                                                           else root.getChildWithDefault(b"f", c)).render(c))
+                except _Spin:
+                    result = server.NOT_DONE_YET
+                if len(opened) > nopen:
+                    c.tf = opened[nopen]
+                if result is server.NOT_DONE_YET:
+                    active.append(c)
+                    settle(c)
+                else:
+                    # what server.Request.render does with a rendered body
+                    sim.check("render-result", isinstance(result, bytes), "not-bytes", lambda: "%r" % (result,))
+                    if r["method"] != b"HEAD" and result:
+                        c.write(result)
+                    c.finish()
+                    judge(c)
+                continue
+            c = active[what]
+            if stop_req == c.r["k"] and c.pulls >= stop_after:
+                # the consumer goes away between two pulls (what the channel does on connectionLost)
+                sim.fault("direct_consumer_stops_producer")
+                sim.event("direct-stop", c.r["k"], c.pulls)
+                c.stopped = True
+                guarded(c, "stopProducing", c.producer.stopProducing)
+                active.remove(c)
+                judge(c, partial=True)
+                continue
+            sim.event("direct-pull", c.r["k"])
+            try:
+                guarded(c, "resumeProducing", c.pull)
+            except _Spin:
+                pass
+            if book["spin"] or c.idle > 60 or c.pulls > 3000:
+                sim.fail("never-finishes", witness_of(c.r), "a producer is asked again and again and neither writes nor finishes: %s" % ddetail(c))
+            settle(c)
+
+    if consumer == "channel":
+        site = None
+        for ci in range(nconn):
+            if site is None or site_per_conn:
+                site = HookSite(make_root(), reactor=sim.clock)
+                if ci:
+                    sim.probe("fresh_site_for_later_connection")
+            if ci:
+                sim.probe("later_connection_same_path")
+            serve_connection(ci, site)
+    else:
+        serve_directly()
+
+    sim.check("internal-error-logged", not logged, logged[0][0] if logged else "", lambda: "%r\n %s" % (logged[:3], describe()))
 
     # ---- resources
-    sim.check("file-left-open", all(f.closed for f in opened), "lost" if lost else "complete",
-              lambda: "%d of %d files still open; %s" % (sum(1 for f in opened if not f.closed), len(opened), detail()))
-    sim.check("file-opened-per-request", len(opened) <= nreq, "", detail)
+    sim.check("file-left-open", all(f.closed for f in opened), "lost" if flags["any_lost"] else "complete",
+              lambda: "%d of %d files still open; %s" % (sum(1 for f in opened if not f.closed), len(opened), describe()))
+    sim.check("file-opened-per-request", len(opened) <= total, "", describe)
     if bufsize == 65536:
         sim.probe("default_buffer_size")
-    if size == 0:
+    if 0 in sizes:
         sim.probe("empty_file")
-    if nreq > 1 and complete > 1:
-        sim.probe("pipelined_responses")
-    if any(r["version"] == b"HTTP/1.0" for r in reqs):
+    if tree == "directory":
+        sim.probe("fresh_file_object_per_request")
+    if any(r["version"] == b"HTTP/1.0" for r in allreqs):
         sim.probe("http10_request")
-    sim.state((regime, min(bufsize, 70000) // 64, hwm, nreq, tuple(r["exp"].why for r in reqs), lost))
-    sim.nontrivial = multi_call
+    sim.state((regime, consumer, min(bufsize, 70000) // 64, hwm, tuple(nreqs), tuple(r["exp"].why for r in allreqs), flags["any_lost"],
+               tuple(k for k in kinds if k)))
+    sim.nontrivial = flags["multi_call"]
 
 
 MUTANTS = [
@@ -752,4 +1206,16 @@ MUTANTS = [
     "CAUGHT StaticProducer.stopProducing does not close the file -> file-left-open:complete, file-left-open:lost",
     "CAUGHT _PullToPush.stopProducing does not stop the wrapped producer (connection loss inside a body) -> file-left-open:lost",
     "CAUGHT HTTPChannel.resumeProducing does not resume the request producer (client stall never ends) -> response-incomplete:*, response-missing:*",
+    # -- round 4: file rewritten between requests / consumer that pulls from inside write()
+    "CAUGHT seeded C25-r4b (functools.lru_cache on File._rangeToOffsetAndSize: class-level, keyed by path and spec, not by size) "
+    "-> content-range:single-range, content-range:206-invalid-content-range, response-missing:valid-single (quick, ~2000 runs); MISSED before the "
+    "file was ever rewritten inside a run",
+    "CAUGHT seeded C25-r4a (SingleRangeStaticProducer counts bytesWritten after request.write) -> raised:direct-reentrant:ValueError, "
+    "never-finishes:valid-single, never-finishes:lenient (quick, direct family only: _PullToPush never re-enters)",
+    "CAUGHT render_GET: self.restat(False) removed (size and existence remembered by the File object) -> body:200-not-whole-content, "
+    "never-finishes:valid-multi, content-range:416",
+    "CAUGHT getFileSize memoised per path in a module-level dict -> body:200-not-whole-content, response-missing:valid-single, never-finishes:*",
+    "GENUINE (unchanged tree, direct family, 1 run in 10 not avoiding it) MultipleRangeStaticProducer: consumer pulls from inside the write that "
+    "carries the close-delimiter (or the empty body of a multi-range 416) -> raised:direct-reentrant:AttributeError "
+    "('NoneType' object has no attribute 'unregisterProducer', static.py resumeProducing `if done:`)",
 ]
